@@ -38,6 +38,11 @@ pub struct ScaleCase {
     pub chords: Vec<(u32, u32)>,
     pub selfs: Vec<u32>,
     pub parallel: bool,
+    /// instruction-count probe (deterministic linearity check): build the shape
+    /// with `probe.0` and `probe.1` objects under valgrind/cachegrind and compare
+    /// the instructions spent in the final drop
+    #[serde(default)]
+    pub probe: Option<(u32, u32)>,
 }
 
 fn max_n(tier: Tier, shape: u8) -> f64 {
@@ -147,6 +152,121 @@ unsafe fn build(c: &ScaleCase, n: usize) -> (Box<Rc<Big>>, usize, usize) {
     (h0, pairs.len(), adoptions)
 }
 
+/// `cxcheck scaleprobe <case.json> <n> <drop:0|1>`: build the shape with n
+/// objects and (optionally) perform the final drop, in-process, nothing else.
+/// Run under cachegrind by `ir_probe`; the difference between drop=1 and
+/// drop=0 is the cost of the final drop alone.
+pub fn scaleprobe_cmd(args: &[String]) -> i32 {
+    let c: ScaleCase = serde_json::from_str(&std::fs::read_to_string(&args[0]).unwrap()).unwrap();
+    let n: usize = args[1].parse().unwrap();
+    let do_drop = args[2] == "1";
+    let (h0, pairs, adoptions) = unsafe { build(&c, n) };
+    if do_drop {
+        DESTROYED.store(0, Ordering::Relaxed);
+        drop(*h0);
+        let d = DESTROYED.load(Ordering::Relaxed);
+        println!("destroyed={} pairs={} adoptions={}", d, pairs, adoptions);
+        if d != n {
+            return 3;
+        }
+    } else {
+        println!("destroyed=0 pairs={} adoptions={}", pairs, adoptions);
+        std::mem::forget(h0);
+    }
+    // leave without running any further destructors
+    unsafe { libc::_exit(0) }
+}
+
+fn cachegrind(case_file: &std::path::Path, n: u32, do_drop: bool) -> Result<(u64, u64), String> {
+    let exe = std::env::current_exe().map_err(|e| e.to_string())?;
+    let out = std::process::Command::new("valgrind")
+        .arg("--tool=cachegrind")
+        .arg("--cache-sim=no")
+        .arg("--cachegrind-out-file=/dev/null")
+        .arg(&exe)
+        .arg("scaleprobe")
+        .arg(case_file)
+        .arg(n.to_string())
+        .arg(if do_drop { "1" } else { "0" })
+        .output()
+        .map_err(|e| format!("cannot run valgrind: {}", e))?;
+    if !out.status.success() {
+        return Err(format!("probe exited with {:?}", out.status.code()));
+    }
+    let err = String::from_utf8_lossy(&out.stderr);
+    let so = String::from_utf8_lossy(&out.stdout);
+    let ir = err
+        .lines()
+        .find(|l| l.contains("refs:"))
+        .map(|l| l.rsplit("refs:").next().unwrap().chars().filter(|c| c.is_ascii_digit()).collect::<String>())
+        .and_then(|d| d.parse::<u64>().ok())
+        .ok_or_else(|| "no instruction count in cachegrind output".to_string())?;
+    let adoptions = so.split("adoptions=").nth(1).and_then(|x| x.trim().parse::<u64>().ok()).unwrap_or(0);
+    Ok((ir, adoptions))
+}
+
+/// Deterministic linearity probe: instructions of the final drop for n_small
+/// and n_big objects; the ratio must stay within 2.2x of the ratio of
+/// (objects + adoptions).
+fn ir_probe(c: &ScaleCase, small: u32, big: u32) -> CaseResult {
+    let mut r = CaseResult {
+        outcome: exec::Outcome::Pass,
+        view: 0,
+        op: 0,
+        msg: String::new(),
+        labels: 1 << L_IR,
+        nontrivial: true,
+        kf_id: 0,
+        digest: 0,
+        counters: [0; exec::NCOUNTERS],
+        signal: 0,
+    };
+    let dir = std::env::temp_dir().join(format!("cx-irprobe-{}", std::process::id()));
+    let _ = std::fs::create_dir_all(&dir);
+    let f = dir.join("case.json");
+    let mut cc = c.clone();
+    cc.probe = None;
+    let _ = std::fs::write(&f, serde_json::to_string(&cc).unwrap());
+    let run = || -> Result<(u64, u64, u64, u64), String> {
+        let (b0, _) = cachegrind(&f, small, false)?;
+        let (b1, a_small) = cachegrind(&f, small, true)?;
+        let (c0, _) = cachegrind(&f, big, false)?;
+        let (c1, a_big) = cachegrind(&f, big, true)?;
+        Ok((b1.saturating_sub(b0), a_small, c1.saturating_sub(c0), a_big))
+    };
+    let res = run();
+    let _ = std::fs::remove_dir_all(&dir);
+    match res {
+        Err(e) => {
+            // cannot measure (no valgrind): undecided, never a violation
+            r.outcome = exec::Outcome::Internal;
+            r.msg = format!("instruction probe could not run: {}", e);
+        }
+        Ok((ir_small, a_small, ir_big, a_big)) => {
+            let size_small = small as u64 + a_small;
+            let size_big = big as u64 + a_big;
+            let size_ratio = size_big as f64 / size_small as f64;
+            let ir_ratio = ir_big as f64 / ir_small.max(1) as f64;
+            r.counters[30] = ir_small;
+            r.counters[31] = ir_big;
+            r.counters[32] = (ir_ratio * 1000.0) as u64;
+            r.counters[33] = (size_ratio * 1000.0) as u64;
+            r.msg = format!(
+                "final drop: {} instructions for {} objects+adoptions, {} for {} (instruction ratio {:.2}, size ratio {:.2})",
+                ir_small, size_small, ir_big, size_big, ir_ratio, size_ratio
+            );
+            if ir_ratio > 2.2 * size_ratio {
+                r.outcome = exec::Outcome::Violation;
+                r.view = View::Scale as u32;
+                r.msg = format!("[scale] the cost of the final drop does not grow linearly: {}", r.msg);
+            }
+        }
+    }
+    r
+}
+
+pub const L_IR: u32 = 6;
+
 pub struct ScaleKind;
 
 pub const L_BIG: u32 = 0;
@@ -160,10 +280,13 @@ impl Kind for ScaleKind {
     type Case = ScaleCase;
     fn strategy(_id: &str, _tier: Tier, _variant: u64) -> BoxedStrategy<ScaleCase> {
         (0u8..4, any::<u16>(), vec((any::<u32>(), any::<u32>()), 0..48), vec(any::<u32>(), 0..16), any::<bool>())
-            .prop_map(|(shape, size, chords, selfs, parallel)| ScaleCase { shape, size, chords, selfs, parallel })
+            .prop_map(|(shape, size, chords, selfs, parallel)| ScaleCase { shape, size, chords, selfs, parallel, probe: None })
             .boxed()
     }
     fn run(_id: &str, tier: Tier, c: &ScaleCase) -> CaseResult {
+        if let Some((small, big)) = c.probe {
+            return ir_probe(c, small, big);
+        }
         let views = View::Scale.bit() | View::Crash.bit() | View::Abort.bit() | View::LibPanic.bit();
         let n = n_of(c, tier);
         let mut r = exec::run_forked(views, 120, || {
@@ -239,6 +362,9 @@ impl Kind for ScaleKind {
         r
     }
     fn compact(c: &ScaleCase) -> String {
+        if let Some((a, b)) = c.probe {
+            return format!("instruction probe shape={} N={} vs N={} chords={} selfs={}", ["ring", "ring+chords", "clique", "ring+self+chords"][(c.shape % 4) as usize], a, b, c.chords.len(), c.selfs.len());
+        }
         format!(
             "shape={} size_sel={} (N quick={} thorough={}) chords={} selfs={} parallel={}",
             ["ring", "ring+chords", "clique", "ring+self+chords"][(c.shape % 4) as usize],
@@ -251,7 +377,7 @@ impl Kind for ScaleKind {
         )
     }
     fn label_names() -> Vec<String> {
-        let mut v: Vec<String> = ["N>=1000", "ring", "ring_with_chords", "clique", "ring_with_self_adoptions", "N>=100000"].iter().map(|s| s.to_string()).collect();
+        let mut v: Vec<String> = ["N>=1000", "ring", "ring_with_chords", "clique", "ring_with_self_adoptions", "N>=100000", "instruction_count_probe"].iter().map(|s| s.to_string()).collect();
         while v.len() < 64 {
             v.push(String::new());
         }
@@ -262,6 +388,7 @@ impl Kind for ScaleKind {
             "objects": c[20], "distinct_adoption_pairs": c[21], "adoptions": c[22],
             "traces_in_final_drops": c[23], "worklist_pops": c[24], "tables_scanned": c[25], "entries_scanned": c[26],
             "tables_scanned_per_object": if c[20] > 0 { c[25] as f64 / c[20] as f64 } else { 0.0 },
+            "instruction_probes": {"final_drop_instructions_small_sum": c[30], "final_drop_instructions_big_sum": c[31]},
             "pops_per_object_plus_adoption": if c[20] > 0 { c[24] as f64 / (c[20] + c[22]) as f64 } else { 0.0 },
         })
     }
